@@ -51,6 +51,13 @@ pub fn install_panic_hook() {
         } else {
             "?".to_string()
         };
+        // everything goes to the worker's stderr file (first 40 per process); a panic located in the
+        // harness itself is labelled so that the driver never mistakes it for a property violation
+        static SHOWN: std::sync::atomic::AtomicUsize = std::sync::atomic::AtomicUsize::new(0);
+        if SHOWN.fetch_add(1, std::sync::atomic::Ordering::Relaxed) < 40 {
+            let harness = loc.starts_with("vgen/") || loc.starts_with("vmon/") || loc.starts_with("vfeat/") || loc.starts_with("vtantivy/") || loc.contains("/harness/");
+            eprintln!("{} at {loc}: {msg}", if harness { "HARNESS PANIC" } else { "PANIC" });
+        }
         LAST_PANIC.with(|p| *p.borrow_mut() = Some(format!("{loc}: {msg}")));
     }));
 }
